@@ -118,6 +118,46 @@ func checkReadableSpec(c *Ctx, gen *packages.Package) {
 			"ranges over a string and writes runes (or over bytes and writes bytes)",
 			fmt.Sprintf("ranges over %s but writes runes=%v bytes=%v: multi-byte characters are re-encoded byte by byte and every non-ASCII character of the embedded documents is corrupted", t, writesRune, writesByte))
 	}
+	// nothing but the backtick is rewritten: inside the loop, the only writes are the element itself and
+	// one constant (the backtick's replacement)
+	if rs != nil {
+		var elem types.Object
+		if id, ok := rs.Value.(*ast.Ident); ok {
+			elem = info.Defs[id]
+		}
+		var other []string
+		consts := map[string]bool{}
+		ast.Inspect(rs.Body, func(n ast.Node) bool {
+			call, ok := n.(*ast.CallExpr)
+			if !ok {
+				return true
+			}
+			name := ""
+			if se, ok := call.Fun.(*ast.SelectorExpr); ok {
+				name = se.Sel.Name
+			}
+			switch name {
+			case "WriteRune", "WriteByte":
+				if len(call.Args) == 1 && elem != nil && identIs(info, call.Args[0], elem) {
+					return true
+				}
+				other = append(other, goan.ExprString(call))
+			case "WriteString", "Write":
+				if len(call.Args) == 1 {
+					if cs, ok := goan.StringVal(info, call.Args[0]); ok {
+						consts[cs] = true
+						return true
+					}
+				}
+				other = append(other, goan.ExprString(call))
+			case "Fprintf", "Fprint", "Fprintln", "Sprintf", "AppendQuote", "Quote", "QuoteToASCII", "AppendRune":
+				other = append(other, goan.ExprString(call))
+			}
+			return true
+		})
+		c.Check(len(other) == 0 && len(consts) <= 1, rule, "generator.generateReadableSpec › only the backtick is rewritten", c.posOf(gen, rs.Pos()), "every other element is written as it is",
+			fmt.Sprintf("inside the loop the document is also written through %v (constants written: %d): characters other than the backtick are transformed, and the embedded documents no longer hold the strings of the input spec", other, len(consts)))
+	}
 	// replacement text (shared with C09.R3)
 	okTick := false
 	ast.Inspect(fd.Body, func(n ast.Node) bool {
